@@ -4,6 +4,7 @@
   `<model observation>[\t<spec observation>]`.
 -/
 import LispModel
+import LispModel.CallDriver
 open LispModel
 
 def splitBar (s : String) : List String := s.splitOn " | "
@@ -212,6 +213,7 @@ def handle (line : String) : String :=
     match hexBytes payload with
     | some bs => renderP (Preamble.readWithPreamble { hasEnv := true } bs)
     | none => "bad-op"
+  | ["call", payload, extra] => CallDriver.handleCall payload extra  -- C20, see LispModel/CallDriver.lean
   | _ => "bad-op"
 
 /-! ### eval -/
@@ -244,13 +246,14 @@ def runEval (base : State) (payload : String) : String :=
       let names := if get "n=" == "-" then [] else (get "n=").splitOn ","
       let st0 : State := { base with cancelAt := cancelAt, ticks := 0, trace := [], marks := [],
                                       stepper := script.map fun sc => { script := sc } }
-      let (r, st) := eval evalFuel st0 0 ast 1
+      let (st0, env0) := if get "e=" == "child" then st0.newScope 0 [] else (st0, 0)
+      let (r, st) := eval evalFuel st0 env0 ast 1
       let deref := fun id => st.atoms[id]?
       let res := match r with
         | .ok v => "ok " ++ Proto.render deref v
         | .err e => renderErr st e
         | .oof => "OOF"
-      let defs := names.map fun n => match st.get 0 n with
+      let defs := names.map fun n => match st.get env0 n with
         | some v => n ++ "=" ++ Proto.render deref v
         | none => n ++ "=?"
       let out := s!"{res} trace=[{joinSemi (st.trace.reverse.map (Proto.render deref))}] marks={renderNats st.marks.reverse} ticks={st.ticks} defs=[{joinSemi defs}]"
